@@ -252,6 +252,9 @@ def render_chunked(chunks, rng, exts=True):
         out += (b"%x" % len(c) if rng.random() < 0.7 else b"%X" % len(c))
         if exts and rng.random() < 0.15:
             out += b";ext=" + rand_token(rng, 1, 3)
+        elif exts and rng.random() < 0.1:
+            # long extensions: a cut inside one leaves eight or more non-hex bytes of the line in the next chunk (S41)
+            out += b"".join(b";" + rand_token(rng, 1, 6) + b"=" + rand_token(rng, 4, 14) for _ in range(rng.randint(1, 2)))
         out += b"\r\n" + c + b"\r\n"
     out += b"0\r\n"
     return out
@@ -420,6 +423,13 @@ def rand_cfg(rng, base="respdecomp=0"):
         parts.append("maxtx=%d" % rng.choice((1, 2, 5)))
     if rng.random() < 0.1:
         parts.append("cookies=0,auth=0")
+    # the rest of the public lattice: the second request-line splitter, the multipart handler, one path-decoder switch
+    if rng.random() < 0.12:
+        parts.append("spaceuri=1")
+    if rng.random() < 0.1:
+        parts.append("mpart=1")
+    if rng.random() < 0.12:
+        parts.append(rng.choice(("bs=1", "lc=1", "comp=1", "sepdec=1", "udec=1", "inv=0", "inv=1", "inv=2", "nrt=1", "net=1", "u8best=1", "lws=400")))
     return ",".join(parts)
 
 
